@@ -129,10 +129,8 @@ class Exec:
     def run(self, prefix, t: Tally, verbose=False, probe=None):
         s = self.s
         p = setup()
-        if s["side"] == "server":
-            tp.activate(p["env"], ssl_verify_upstream_trusted_ca=p["root"])
-        else:
-            tp.activate(p["env"])
+        # one configuration for every execution (the upstream trust root is irrelevant to the client side)
+        tp.activate(p["env"], ssl_verify_upstream_trusted_ca=p["root"])
         rig = tp.Rig(s["side"], p["env"], address=(SERVER_NAME, 443), child_opens=bool(s["opens"]), hold_hooks=s["hold"])
         peer = make_peer(s["side"], s["tls"])
         pt = [payload(i + 1, n) for i, n in enumerate(s["pw"])]
@@ -356,7 +354,7 @@ def family_cuts(fam, layout, tier):
     if fam == "each2":
         # two cuts inside the first two records that carry application data (and the handshake flight before them)
         first = [c for c in singles if c[0] <= min(len(layout) - 1, 3)]
-        return [[a, b] for i, a in enumerate(first) for b in first[i + 1::3]]
+        return [[a, b] for i, a in enumerate(first) for b in first[i + 1::8]]
     raise HarnessError("unknown cut family %r" % fam)
 
 
@@ -386,7 +384,7 @@ def run(ctx):
         "write_sizes": SIZES + [70000], "peer_writes": ctx.pick("1-2 per execution", "1-3 per execution"), "inner_layer_writes": "0-3 per execution",
         "record_sizes": "one SSL write per application write (records <= 16384) or per byte",
         "cuts": ctx.pick("<=1 cut: every offset of records <= 300 bytes, 8 offsets (header, middle, tag, end) of larger ones; 1-byte segmentation of streams <= 200 plaintext bytes",
-                         "as quick + <=2 cuts (second cut every 3rd offset) over the first records of a two-write stream + 1-byte segmentation of a 16385-byte write"),
+                         "as quick + <=2 cuts (second cut every 8th offset) over the first records of a two-write stream + 1-byte segmentation of a 16385-byte write"),
         "early_data": "first peer write in the same segment as the peer's last handshake flight / NewSessionTickets, or separately",
         "close": CLOSES, "schedule_deviations": ctx.pick(1, 2), "specs": len(sp),
     }
